@@ -39,7 +39,7 @@ package rulelist
 //@   callsite (io.Writer).Write(w, b) requires forall k int :: 0 <= k && k < len(b) - 1 ==> b[k] == old(bytes.TrimSpace(line)[k])
 //@   ensures html-rejected: old(p.written) == 0 && old(isHTMLLine(bytes.TrimSpace(line))) ==> err == ErrHTML && n == 0 && p.rulesCount == old(p.rulesCount) && p.checksum == old(p.checksum)
 //@   ensures counted-once: p.rulesCount == old(p.rulesCount) || ((p.rulesCount == old(p.rulesCount) + 1 || old(p.rulesCount) == 9223372036854775807) && p.checksum == old(crc32.Update(p.checksum, crc32.IEEETable, bytes.TrimSpace(line))))
-//@   ensures error-not-counted: err != nil && !(p.rulesCount == old(p.rulesCount) + 1) ==> n == 0
+//@   ensures error-not-counted: err != nil && p.rulesCount == old(p.rulesCount) ==> n == 0
 
 //@ func (p *Parser) Parse(dst io.Writer, src io.Reader, buf []byte) (r *ParseResult, err error)
 //@   property C15
